@@ -158,6 +158,11 @@ class C14(Scenario):
             pend.append(nxt)
             nxt += 1
         steps.append({"op": "final", "obj": pend[0]})
+        # a frame prepared for the request: it holds exactly the columns the features name (round 6: a filler that works on
+        # the caller's frame instead of a selection of it is only visible when there is nothing to drop)
+        if rng.fork("frame").chance(0.3):
+            used = set(c for f in feats for c in f)
+            cols = {k_: v for k_, v in cols.items() if k_ in used}
         return {"cols": {k_: [v[0], v[1]] for k_, v in cols.items()}, "features": [":".join(f) for f in feats] + ([":".join(feats[0])] if dup else []),
                 "binning": binning,
                 "bin_specs": bin_specs, "time_axis": "t1" if use_time else "", "steps": steps, "records": [],
@@ -361,7 +366,7 @@ class C14(Scenario):
                     w.bump("probe_time_axis")
                 if case["bin_specs"]:
                     w.bump("probe_explicit_bin_specs")
-                if any(v == "nan" for v in cols["f1"][1] + cols["f2"][1]):
+                if any(v == "nan" for v in cols.get("f1", (0, []))[1] + cols.get("f2", (0, []))[1]):
                     w.bump("probe_nan_in_float_column")
                 if any("b1" in f for f in f_r):
                     w.bump("probe_bool_axis")
@@ -369,10 +374,12 @@ class C14(Scenario):
                     w.bump("probe_all_nan_column")
                 if len(set(feats)) < len(feats):
                     w.bump("probe_duplicate_feature")
+                if set(cols) == set(c for f in f_r for c in f.split(":")):
+                    w.bump("probe_frame_has_only_requested_columns")
                 for kind_ in ("cut", "fraction", "sum", "average", "deviate", "maximize", "minimize", "bag"):
                     if ("'%s'" % kind_) in repr(bs_r):
                         w.bump("probe_spec_kind_" + kind_)
-                if any(v in ("inf", "-inf") for v in cols["f3"][1]) and any("f3" in f for f in f_r):
+                if any(v in ("inf", "-inf") for v in cols.get("f3", (0, []))[1]) and any("f3" in f for f in f_r):
                     w.bump("probe_inf_in_float_column")
             elif op == "chunk":
                 if frozen is None or not st["rows"] or any(i >= n for i in st["rows"]):
